@@ -27,6 +27,11 @@ let rec leb n m =
              | O -> false
              | S m' -> leb n' m')
 
+(** val ltb : nat -> nat -> bool **)
+
+let ltb n m =
+  leb (S n) m
+
 (** val min : nat -> nat -> nat **)
 
 let rec min n m =
